@@ -154,7 +154,7 @@ def corpus():
     return out
 
 
-def gen_cases(tier, g: G.G):
+def gen_cases(tier, g: G.G, exe=None, ext='-'):
     """-> list of (kind, expr term)"""
     r = lib.rng('C12')
     cases = []
@@ -205,8 +205,24 @@ def gen_cases(tier, g: G.G):
         cases += list(G.stream_casts(g, u2))
         cases += list(G.stream_userfuncs(g, u2))
         nrand, nmal = 60000, 15000
-    for _ in range(nrand):
-        cases.append(('random', G.random_expr(g, r, r.choice((2, 3, 3, 4)))))
+    # random typed trees: mostly valid.  Candidates are drawn from the type-family-biased generator
+    # and, when the model binary is available, selected so that about 3/4 of the stream is accepted
+    # by the model (the real compiler is run on every selected case all the same).
+    cands = [G.random_expr(g, r, r.choice((2, 3, 3, 4))) for _ in range(nrand * 3)]
+    picked = None
+    if exe:
+        try:
+            res = lib.run_model(exe, [f'T {ext} {e}' for e in cands])
+            okc = [e for e, m in zip(cands, res) if m.startswith('OK')]
+            bad = [e for e, m in zip(cands, res) if not m.startswith('OK')]
+            n_ok = min(len(okc), (nrand * 3) // 4)
+            picked = okc[:n_ok] + bad[:nrand - n_ok]
+            r.shuffle(picked)
+        except Exception:      # noqa
+            picked = None
+    if picked is None:
+        picked = cands[:nrand]
+    cases += [('random', e) for e in picked]
     cases += list(G.stream_malformed(g, r, nmal))
     return cases
 
@@ -541,7 +557,7 @@ def run(tier):
     spec_n = write_spec(ids, 'N')
 
     # 4. cases
-    cases = [('corpus', c) for c in corpus()] + gen_cases(tier, g)
+    cases = [('corpus', c) for c in corpus()] + gen_cases(tier, g, exe, ext)
     lines = [f'T {ext} {e}' for _, e in cases]
     plines_raw = pair_cases(g, tier)
     plines = [f'{l[0]} {ext} {l[2:]}' for l in plines_raw]
@@ -552,12 +568,14 @@ def run(tier):
 
     lap('generate')
     t0 = time.time()
-    all_impl = run_impl(['SIGDUMP'] + lines + plines + qlines, spec)
+    # one process first: it (re)builds the std-schema cache of the substrate if the sources changed,
+    # so that the parallel workers only load it
+    sig_real = run_impl(['SIGDUMP'], spec, nproc=1)[0]
+    all_impl = run_impl(lines + plines + qlines, spec)
     impl_s = time.time() - t0
-    sig_real = all_impl[0]
-    impl = all_impl[1:1 + len(lines)]
-    pimpl = all_impl[1 + len(lines):1 + len(lines) + len(plines)]
-    qimpl = all_impl[1 + len(lines) + len(plines):]
+    impl = all_impl[:len(lines)]
+    pimpl = all_impl[len(lines):len(lines) + len(plines)]
+    qimpl = all_impl[len(lines) + len(plines):]
     # determinism probe on a slice (every case compiled twice in one process)
     nd = min(len(lines), 500 if not thorough else 15000)
     step = max(1, len(lines) // nd)
